@@ -247,3 +247,7 @@ pub fn replay(ctx: &Ctx, args: &[String]) {
   }
   ctx.add(&l);
 }
+
+pub fn model_chars_pub(civ: &Civil, tm: &Terms, inst: i64) -> Option<[String; 4]> {
+  model_chars(civ, tm, inst, true)
+}
